@@ -10,7 +10,7 @@ ID = "C02"
 TITLE = "Deterministic solvers return the ODE solution at each requested time"
 RULE = ("Hypothesis draws either a generated benign ODE model (chains, epidemic mass action, saturating interactions, periodic forcing; 1-4 states) "
         "or a catalogue model with a parameter / initial-state box (SIS, SIS_Periodic, SIR, SEIR, SIR_Birth_Death, SEIR_Birth_Death, "
-        "SEIR_Birth_Death_Periodic, Lotka_Volterra, FitzHugh, SIR_norm, vanDerPol with small mu, Lorenz and Robertson on short horizons), a grid of "
+        "SEIR_Birth_Death_Periodic, Lotka_Volterra, FitzHugh, SIR_norm, vanDerPol with small mu, Lorenz and Robertson on short horizons; SIS_Periodic with forcing period 0.25-0.6 on a SPARSE grid of 1-3 times out to t0+45, i.e. thousands of internal solver steps between two outputs), a grid of "
         "1-12 strictly increasing times after t0 (uniform or non-uniform with gaps from 1e-3 to 2; list, tuple, array or a single number; in 3 of 8 cases instead a decreasing grid before t0 (backward integration), a grid whose first entry is t0 itself, or a grid with one time asked twice) and an entry "
         "point in {integrate, integrate(full_output=True), solve_determ, integrate2(method, full_output), ode_utils.integrateFuncJac(method, "
         "full_output, includeOrigin)} with method in {None, lsoda, vode, ivode, dopri5, dop853}; grids also as integer typed arrays / lists / tuples with a fractional t0, x0 as list / tuple / array / Python ints / integer typed array; in half of the cases a SECOND solve follows on the same model object with another entry point, method, grid and initial condition. Oracle: number of rows = len(grid) (+1 where the "
@@ -50,7 +50,18 @@ CATALOGUE = {
     "vanDerPol": ({"mu": (0.1, 2.0)}, [(-2, 2), (-2, 2)], 4.0),
     "Lorenz": ({"beta": (2.0, 3.0), "sigma": (8.0, 11.0), "rho": (15.0, 28.0)}, [(-5, 5), (-5, 5), (5, 20)], 0.5),
     "Robertson": ({}, [(0.8, 1.0), (0.0, 1e-4), (0.0, 0.1)], 0.3),
+    # fast periodic forcing over a long horizon with a SPARSE output grid: thousands of internal solver steps between two
+    # consecutive outputs (far more than odeint's default mxstep of 500), yet contractive dynamics, so the problem stays
+    # well-conditioned and the two references agree
+    "SIS_Periodic/long-sparse": ({"gamma": (0.3, 1.0), "beta0": (0.8, 1.5), "delta": (0.2, 0.5), "period": (0.25, 0.6), "N": (50, 50)},
+                                 [(20, 45), (1, 10)], 45.0),
 }
+LONG = "SIS_Periodic/long-sparse"
+
+
+def _ctor(name):
+    from pygom import common_models
+    return getattr(common_models, name.split("/")[0])
 
 
 def strategy(tier):
@@ -63,14 +74,18 @@ def strategy(tier):
             su = draw(S.ode_setup(m, n_times=(1, 12), t_max=6.0))
             c.update(model=m, setup=su)
         else:
-            name = draw(st.sampled_from(sorted(CATALOGUE)))
+            name = draw(st.sampled_from(sorted(CATALOGUE) + [LONG] * 2))
             pbox, xbox, tmax = CATALOGUE[name]
             theta = {k: (S.sig(draw(S.fl(lo, hi, 4)), 4) if lo != hi else lo) for k, (lo, hi) in pbox.items()}
             x0 = [S.sig(draw(S.fl(lo, hi, 4)), 4) if lo != hi else lo for lo, hi in xbox]
             # signed boxes: no vanishing (1e-155) initial values - scipy's explicit integrators fail to pick a first step there
             x0 = [v if abs(v) >= 1e-3 or v == 0 else 0.0 for v in x0]
             n = draw(st.integers(1, 12))
-            if draw(st.booleans()):
+            if name == LONG:
+                n = draw(st.integers(1, 3))
+                cuts = sorted(set(S.sig(tmax * draw(S.fl(0.45, 1.0, 3)), 5) for _ in range(n)))
+                rel = cuts
+            elif draw(st.booleans()):
                 step = draw(S.fl(0.02, 1.0, 3)) * tmax / max(n, 1)
                 rel = [S.sig(step * (i + 1), 6) for i in range(n)]
             else:
@@ -91,7 +106,7 @@ def strategy(tier):
         chain = src == "generated" and c["model"].get("family") == "chain"
         c["grid_kind"] = draw(st.sampled_from((["forward"] * 3 + ["backward"] * 3 if chain else ["forward"] * 6) + ["from-t0", "repeat"]))
         c["repeat_at"] = draw(st.integers(0, 11))
-        if c["grid_type"].startswith("int") and src != "generated" and CATALOGUE[c["name"]][2] < 2.0:
+        if c["grid_type"].startswith("int") and src != "generated" and (CATALOGUE[c["name"]][2] < 2.0 or c["name"] == LONG):
             c["grid_type"] = "list"          # Lorenz / Robertson are only benign on horizons far below one time unit
         if c["grid_type"].startswith("int"):
             # whole-number output times (np.arange / day numbers) with a possibly fractional initial time
@@ -135,9 +150,9 @@ def _build(case):
         model.parameters = list(su["theta"])
         f = refsolve.ir_rhs(m, su["theta"])
         return model, f
-    model = getattr(common_models, case["name"])(dict(case["theta"]) if case["theta"] else None)
+    model = _ctor(case["name"])(dict(case["theta"]) if case["theta"] else None)
     model._SC = ode_utils.compileCode(backend="lambda")
-    ref_model = getattr(common_models, case["name"])(dict(case["theta"]) if case["theta"] else None)
+    ref_model = _ctor(case["name"])(dict(case["theta"]) if case["theta"] else None)
     ref_model._SC = ode_utils.compileCode(backend="lambda")
 
     def f(t, x):
@@ -204,6 +219,22 @@ def _run(case, rec, part, model, f, tag=""):
               "model:" + (case.get("name") or case["model"]["family"]))
     info = None
     origin = True
+    if case.get("name") == LONG and not odeint_path:
+        # thousands of steps between two outputs: with the tight tolerances of the scipy.integrate.ode path the BDF method
+        # can exhaust the wrapper's explicit step cap (nsteps=10000) and PyGOM then raises a clean IntegrationError - a
+        # refused request, not a wrong answer
+        _call = call
+
+        def call_long(key, case, fn, *a, **kw):
+            try:
+                return _call(key, case, fn, *a, **kw)
+            except PropertyViolation as e:
+                if "raises-IntegrationError" in e.key:
+                    rec.label("long-sparse:step-cap-refusal")
+                    raise Inconclusive("step cap reached on a long sparse grid (clean IntegrationError)")
+                raise
+    else:
+        call_long = call
     if entry == "integrate":
         out = call(key, case, model.integrate, garg)
     elif entry == "integrate-full":
@@ -216,7 +247,7 @@ def _run(case, rec, part, model, f, tag=""):
         out = call(key, case, model.solve_determ, garg)
     elif entry == "integrate2":
         key = "C02/%sintegrate2/%s" % (tag, method)
-        out = call(key, case, model.integrate2, garg, part["full_output"], method)
+        out = call_long(key, case, model.integrate2, garg, part["full_output"], method)
         if part["full_output"]:
             try:
                 out, info = out
@@ -225,7 +256,7 @@ def _run(case, rec, part, model, f, tag=""):
     else:
         key = "C02/%sintegrateFuncJac/%s" % (tag, method)
         origin = part["include_origin"]
-        out = call(key, case, ode_utils.integrateFuncJac, model.ode_T, model.jacobian_T,
+        out = call_long(key, case, ode_utils.integrateFuncJac, model.ode_T, model.jacobian_T,
                    x0_arg if isinstance(x0_arg, np.ndarray) else np.array(x0_arg), t0, garg,
                    includeOrigin=origin, full_output=part["full_output"], method=method)
         if part["full_output"]:
